@@ -6,6 +6,7 @@ from tools import vlib
 
 
 FINDING_SERDE_REFS = "serde/handoff-reference-tokens-lost"
+FINDING_SELF_LOOP = "rewrite/self-loop-unary-node-panic"
 
 
 def ids(g):
@@ -62,6 +63,21 @@ class C20(vlib.Spec):
         pieces = []
         py_bits = 0
         G = P.g_graph
+        pan = res.get("rm_panic") or res.get("elim_panic")
+        if pan:
+            # a rewrite panicked.  Known class: the removed node is a 1-in 1-out node whose only edge is a
+            # self loop (the model's remove_mid answers None = "panics" there too).
+            g = pan["graph"]
+            if "node" in pan:
+                victims = [pan["node"]]
+            else:
+                victims = unary_union_tee(g)
+            selfloop = [v for v in victims if any(e["src"] == v and e["dst"] == v for e in g["edges"])]
+            terms = ["(match remove_mid (g_edges %s) %d 0 with None => 0 | Some _ => 1 end)" % (G(g), v) for v in selfloop]
+            term = "0"
+            for t in terms:
+                term = "N.lor (%s) (%s)" % (t, term)
+            return "N.lor (%s) %d" % (term, (2 | 32) if selfloop else 2)
         # merge_modules
         mbs = [n["id"] for n in res["with_mb"]["nodes"] if n["k"] == "mb"]
         if res["merge"] == "ok":
@@ -111,6 +127,8 @@ class C20(vlib.Spec):
 
     def finding_key(self, case, res):
         v = self.verdicts.get(vlib.case_hash(case))
+        if v == (2 | 32):
+            return FINDING_SELF_LOOP
         return FINDING_SERDE_REFS if v == (2 | 8) else None
 
     def shrink(self, case):
@@ -125,13 +143,17 @@ class C20(vlib.Spec):
     def nontrivial(self, case, res):
         if not (isinstance(res, dict) and "before" in res):
             return False
+        if "after_elim" not in res:
+            return True
         return bool(res["mb_log"] or res["rm_log"] or len(res["before_elim"]["nodes"]) != len(res["after_elim"]["nodes"])
                     or (isinstance(res["roundtrip"], dict) and "orig" in res["roundtrip"]
                         and len(res["roundtrip"]["orig"]["nodes"]) != len(res["after_elim"]["nodes"])))
 
     def describe(self, case, res):
         d = {"src": case["src"], "mb": case.get("mb"), "rm": case.get("rm")}
-        if isinstance(res, dict) and "before" in res:
+        if isinstance(res, dict) and "before" in res and "after_elim" not in res:
+            d["panic"] = (res.get("rm_panic") or res.get("elim_panic") or {}).get("msg")
+        elif isinstance(res, dict) and "before" in res:
             d["module_boundaries"] = len(res["mb_log"])
             d["removed_by_eliminate"] = sorted(set(ids(res["before_elim"])) - set(ids(res["after_elim"])))
             rt = res["roundtrip"]
@@ -148,6 +170,9 @@ class C20(vlib.Spec):
                 d["front_end_rejected"] += 1
                 continue
             d["programs"] += 1
+            if "after_elim" not in r:
+                d["rewrite_panicked"] = d.get("rewrite_panicked", 0) + 1
+                continue
             d["with_module_boundaries"] += 1 if r["mb_log"] else 0
             d["mb_edges"] += len(r["mb_log"])
             d["explicit_removals"] += len(r["rm_log"])
